@@ -22,7 +22,7 @@ def default_equal(ft, fv, dv):
     """the encoder's `component == default` test, on descriptors (scalar defaults only)"""
     k = base_desc(ft)[0]
     if k == 'bits':
-        return int('0' + ''.join(map(str, fv[1])), 2) == int('0' + ''.join(map(str, dv[1])), 2)
+        return tuple(fv[1]) == tuple(dv[1])
     if fv[0] == 'chars' or dv[0] == 'chars':
         enc = U.str_encoding(ft)
         f = lambda x: x[1].encode(enc) if x[0] == 'chars' else bytes(x[1])
